@@ -260,7 +260,7 @@ def text_spaces(fmt, seeds, pairs_max_tokens):
 SRT_LINE_ALPHABET = ["1\n", "\n", "00:00:01,000 --> 00:00:02,000\n", "00:00:02,000 --> 00:00:02,000\n", "text\n", "<b>x</b> <i>y\n",
                      "</b>\n", "<font color=\"red\">r</font>\n", "<font color=\"nocolor\">r\n", "a --> b\n", "-1\n"]
 SRT_TEXT_ALPHABET = ["a", " ", "\n", "<b>", "</b>", "<i>", "<u>", "</u>", "<font color=\"red\">", "<font color=\"#12\">", "<font color>", "<font>",
-                     "</font>", "<x>", "{b}", "{/bold}", "&amp;", "<"]
+                     "</font>", "<x>", "{b}", "{/bold}", "&amp;", "<", "<![x[", "<!--"]
 VTT_LINE_ALPHABET = ["WEBVTT\n", "\n", "NOTE x\n", "STYLE\n", "REGION\n", "id\n", "00:01.000 --> 00:02.000\n",
                      "00:00:02.000 --> 00:00:02.000 line:0 align:start position:10%,line-right vertical:lr\n", "text\n", "<b>x\n", "</b>\n",
                      "<ruby>a<rt>b\n", "x --> y\n"]
